@@ -9,7 +9,7 @@ from ..deps import Deps
 from ..fa import FA, fa_of
 from ..model import FuncInfo, Program
 from ..rules import names
-from ..sym import Poly, Term, contains, leaves, show, subterms, term_to_poly
+from ..sym import Poly, Term, contains, leaves, poly_term, show, subterms, term_to_poly
 from .c12 import draws, seed_deps, torch_generator_seed
 
 FILES = ["kappadata/samplers/class_balanced_sampler.py", "kappadata/samplers/semi_sampler.py",
@@ -48,7 +48,68 @@ def run(prog: Program, rep: Report, tier: str):
                    "__len__ = effective_length // world size (the same on every rank)",
                    f"SemiSampler.__len__ returns {show(rets[0]) if rets else '?'}: per-rank streams are not equally long / do "
                    f"not follow the documented length mode", clause="C13.5")
+    semi_length(prog, rep)
     names.check(prog, rep, FILES, clause="C13.G1", floor=12)
+
+
+def semi_length(prog: Program, rep: Report):
+    """the documented length modes of the semi-supervised sampler"""
+    rep.rule("G9.semi-length", "SemiSampler.effective_length is <number of whole chunks> * (num_labeled + num_unlabeled) with the "
+             "chunks counted on the pool the mode names: 'labeled' len(labeled_idxs) // num_labeled, 'unlabeled' "
+             "len(unlabeled_idxs) // num_unlabeled, 'all' (len(labeled_idxs) + len(unlabeled_idxs)) // (num_labeled + "
+             "num_unlabeled) - judged per mode on the CFG pruned by that mode, as polynomial identities; another "
+             "construction is not decided")
+    S = prog.cls("SemiSampler")
+    f = S.lookup("effective_length")
+    if f is None:
+        rep.unk("G9.semi-length", S, "effective_length", "no effective_length found", clause="C13.5")
+        return
+    fa = fa_of(prog, f)
+    rep.analysed_add("functions", f"{f.module.relpath}:{f.qualname}")
+    ln = lambda a: ("call", ("global", "len"), (("self", a),), ())
+    nl, nu = Poly.atom(("self", "num_labeled")), Poly.atom(("self", "num_unlabeled"))
+    want = {
+        "labeled": (Poly.atom(ln("labeled_idxs")), nl),
+        "unlabeled": (Poly.atom(ln("unlabeled_idxs")), nu),
+        "all": (Poly.atom(ln("labeled_idxs")) + Poly.atom(ln("unlabeled_idxs")), nl + nu),
+    }
+    modes = sorted({x[1][1][1] for n, nd in fa.cfg.nodes.items() if nd.kind == "test" for x in subterms(fa.sym.term(nd.ast, n))
+                    if x[0] == "eq" and False} | set(want))
+    for mode in modes:
+        case = {}
+        for n, nd in fa.cfg.nodes.items():
+            if nd.kind != "test":
+                continue
+            t = fa.sym.term(nd.ast, n)
+            for m2 in want:
+                for cand in [(tag_, pair_) for tag_ in ("eq", "eqv") for pair_ in (
+                        (("const", m2), ("self", "length_mode")), (("self", "length_mode"), ("const", m2)))]:
+                    if t == cand:
+                        case[t] = (m2 == mode)
+        pa = fa.prune(case) if case else fa
+        rets = [(n, t) for n, t in pa.returns() if t is not None and n in pa.cfg.nodes and pa.cfg.reachable(pa.cfg.entry, n)]
+        if len(rets) != 1 or not case:
+            rep.unk("G9.semi-length", f, f"mode:{mode}", "the length of this mode is not a single expression selected by "
+                    "'self.length_mode == <mode>': not decided", clause="C13.5")
+            continue
+        p = term_to_poly(rets[0][1])
+        fds = [a for a in p.atoms() if a[0] == "binop" and a[1] == "//"]
+        ok = None
+        why = f"effective_length for mode '{mode}' is {show(rets[0][1])[:90]}: another construction, not decided"
+        if len(fds) == 1:
+            num, den = term_to_poly(fds[0][2]), term_to_poly(fds[0][3])
+            wnum, wden = want[mode]
+            whole = Poly.atom(fds[0]) * (nl + nu)
+            if p.key() == whole.key():
+                ok = num.key() == wnum.key() and den.key() == wden.key()
+                why = (f"mode '{mode}': chunks = {show(fds[0])[:80]}" if ok else
+                       f"mode '{mode}' counts its chunks as {show(fds[0])[:100]}, documented is "
+                       f"({show(poly_term(wnum))}) // ({show(poly_term(wden))}): the epoch length does not match the length mode")
+            elif len(p.terms) >= 1 and all(any(a == fds[0] for a, _ in k) for k in p.terms):
+                ok = False
+                why = (f"mode '{mode}': the chunk count {show(fds[0])[:60]} is multiplied by {show(poly_term(p))[:80]}, not by "
+                       f"num_labeled + num_unlabeled")
+        rep.decide(ok, "G9.semi-length", f, f"mode:{mode}", why, why, line=pa.line(rets[0][0]), clause="C13.5")
 
 
 def epoch_state_fresh(prog: Program, rep: Report):
@@ -387,6 +448,16 @@ def weighted(prog: Program, rep: Report):
                    f"the draw uses {show(gen) if gen else 'the global RNG'} instead of a generator built in this iteration: "
                    f"ranks that iterated a different number of times draw different global orders, so the union of their "
                    f"slices repeats indices within an epoch", line=c.lineno, clause="C13.3")
+        # one global draw for all ranks: the seed of the epoch's generator is the same on every rank
+        seed_t = torch_generator_seed(gen) if gen is not None else None
+        if seed_t is not None:
+            per_rank = sorted({lf[1] for lf in leaves(seed_t) if lf[0] == "self" and lf[1] in ("rank", "world_size")} |
+                              {lf[1] for lf in leaves(seed_t) if lf[0] == "global" and lf[1].rsplit(".", 1)[-1] in ("get_rank",)})
+            rep.decide(not per_rank, "G9.weighted-no-repeat", fi, "one-draw-for-all-ranks",
+                       "the seed of the epoch's draw does not depend on the rank",
+                       f"the seed of the epoch's draw depends on {', '.join(per_rank)}: every rank strides over a draw of its own, "
+                       f"so an index can be emitted by two ranks in the same epoch (and others by none)", line=c.lineno,
+                       clause="C13.3")
         # the whole epoch, or exactly the part of it that the ranks consume (the first len(self) * world entries of the same draw)
         used_part = num is not None and term_to_poly(num) == term_to_poly(
             ("call", ("global", "len"), (("param", fa.self_name),), ())) * term_to_poly(("self", "world_size"))
